@@ -114,6 +114,8 @@ def run_opconf(case):
                 )
             else:
                 res.bulk("op==consensus(ok)" if ref[0] == "ok" else "op==consensus(fail)", 1, 1)
+                if len(st) == 3 and not res.samples and ref[0] == "ok":
+                    res.samples.append({"opcode": op, "stack": [x.hex() for x in st], "result": [x.hex() for x in ref[1]]})
     return res
 
 
